@@ -3,9 +3,11 @@ import RbModel.ArrL.Syntax
 import RbModel.ArrL.Ref
 import RbModel.ArrL.Compile
 import RbModel.ArrL.Vm
+import RbModel.ArrL.WfB
 /-! Line-protocol handlers for the models with arrays of scalars (requests `arrl.*`):
 `arrl.compare` (model generator = normalised real instruction list), `arrl.run` (VM model on the model-compiled code),
-`arrl.ref` (reference semantics), all on the program serialised by `harness/src/arrl_sx.rs`. -/
+`arrl.ref` (reference semantics), `arrl.wf` (the executable premise checker `RbModel.ArrL.progWfB` of
+`ArrL.compile_correct`: `Thm/ArrLWf.lean` proves it sound), all on the program serialised by `harness/src/arrl_sx.rs`. -/
 namespace RbModel.Drv.ArrL
 open RbModel RbModel.ArrL RbModel.ArrL.Compile
 open RbModel.Ast (Pos ty?)
@@ -80,6 +82,9 @@ def handle (cmd : String) (args : List Sexp) : Option String :=
       let (st, o) := RbModel.ArrL.Ref.run fuel prog.toAst
       let out := Sexp.ofNats (st.out.out.map Char.toNat)
       pure s!"({outcomeStr o} {out} ())"
+  | "arrl.wf", [prog] => do
+      let prog ← sprogram? prog
+      pure (if progWfB prog then "(wf true)" else "(wf false)")
   | _, _ => none
 
 end RbModel.Drv.ArrL
